@@ -618,7 +618,7 @@ def check_c09(tier, t0):
     jobs, meta = [], []
     for n, s in progs:
         for v in (vecs if not n.startswith("iw_") else vecs[:1] + vecs[3:4]):
-            if v.get("original_code_as_comment") and v.get("remove_labels") and not (n.startswith(("nf_", "br_", "ed_")) or tier == "thorough"):
+            if v.get("original_code_as_comment") and v.get("remove_labels") and not (n.startswith(("nf_", "br_", "ed_", "nm_")) or tier == "thorough"):
                 continue
             jobs.append({"src": s, "options": v})
             meta.append((n, s, v))
